@@ -238,6 +238,17 @@ func (w *world) apply(target string, o wop) {
 		w.noteHeld(target, okey(o.path), w.val)
 		og, el := orig(o.path)
 		w.c.GnmiUpdate(&pb.Notification{Timestamp: w.ts + 100000, Prefix: &pb.Path{Target: target, Origin: og}, Update: []*pb.Update{{Path: mkPath(el), Val: ival(w.val)}}})
+	case "depr":
+		// a leaf whose value travels in the DEPRECATED Update.value field (old
+		// devices): stored and relayed verbatim
+		w.val++
+		og, el := orig(o.path)
+		k := target + "|" + okey(o.path)
+		if w.held[k] == nil {
+			w.held[k] = map[string]bool{}
+		}
+		w.held[k][fmt.Sprintf("deprecated:\"v%d\"", w.val)] = true
+		w.c.GnmiUpdate(&pb.Notification{Timestamp: w.ts, Prefix: &pb.Path{Target: target, Origin: og}, Update: []*pb.Update{{Path: mkPath(el), Value: &pb.Value{Type: pb.Encoding_JSON, Value: []byte(fmt.Sprintf("\"v%d\"", w.val))}}}})
 	case "upd", "same":
 		v := w.cur[target+"|"+okey(o.path)]
 		if o.kind == "upd" || v == 0 {
@@ -382,6 +393,9 @@ func valOf(n *pb.Notification) string {
 	}
 	if dv, ok := n.Update[0].GetVal().GetValue().(*pb.TypedValue_DecimalVal); ok && dv.DecimalVal.GetPrecision() == 0 {
 		return fmt.Sprint(dv.DecimalVal.GetDigits())
+	}
+	if dv := n.Update[0].GetValue(); dv != nil && n.Update[0].GetVal() == nil { //lint:ignore SA1019 the deprecated field is the point
+		return "deprecated:" + string(dv.GetValue())
 	}
 	return n.Update[0].GetVal().String()
 }
